@@ -51,6 +51,7 @@ def run(rep, tier):
     rep.rule("R2", "the hash-based decision is bit 0 of the little-endian u32 flag word = bit 0 of byte 4 of the file")
     rep.rule("R3", "timestamp / source_size / sip_hash are the '<I' / '<I' / '<Q' fields of the right reads; fields the format does not store are None")
     rep.rule("R4", "the code object is read by the next stream operation after the header (no seek, no skipped or extra read)")
+    rep.rule("R6", "`pydisasm -F header`: the timestamp / source size / SipHash lines are written exactly when the field is not None and show load_module's values")
     rep.rule("R5", "reported version is the registry's major.minor for the magic and the reported magic is the file's")
     reg = ref_json("magic_registry.json")
     regver = {}
@@ -153,6 +154,59 @@ def run(rep, tier):
     rep.floor("accepted magics specialised", n_accept, 150)
     rep.extra["dispositions"] = dispositions
     rep.extra["hosts"] = ["%d.%d" % h for h in hosts]
+    # ---------------------------------------------------------------- R6 the header lines pydisasm -F header prints
+    from ..sve import Op as _Op, Spec as _Spec, Sym as _Sym, flatten_effects as _flat, show as _show
+    from ..fold import FuncRef
+    F = T.F
+    dm = F.load("xdis.disasm")
+    smh = dm.ns.get("show_module_header")
+    dfile = dm.ns.get("disassemble_file")
+    if not isinstance(smh, FuncRef) or not isinstance(dfile, FuncRef):
+        raise AnalysisError("anchor vanished: xdis.disasm.show_module_header / disassemble_file")
+    rep.analysed(smh.qualname)
+    rep.analysed(dfile.qualname)
+
+    def dt_hook(spec, name, fv, args, kw, node):
+        if "fromtimestamp" in name:
+            return _Sym("dt", "obj!")
+        return NotImplemented
+    flds = {"timestamp": _Sym("timestamp"), "source_size": _Sym("source_size"), "sip_hash": _Sym("sip_hash")}
+    sp = _Spec(F, hooks=[dt_hook])
+    sp.run(smh, [(3, 8), _Sym("co", "obj!"), flds["timestamp"]], dict(out=_Sym("out", "obj!"), is_pypy=False, magic_int=3413, source_size=flds["source_size"],
+                                                                     sip_hash=flds["sip_hash"], header=True, show_filename=True))
+    for fname, marker in (("timestamp", "Timestamp in code"), ("source_size", "Source code size"), ("sip_hash", "SipHash")):
+        ws = [e for k, e in _flat(sp.effects) if k == "call" and str(e.args[0]) == "out.write" and marker in _show(e.args[1])]
+        got = None
+        ok_ = False
+        if len(ws) == 1:
+            gs = [_show(g) for g in ws[0].guards if _show(g) != "out"]
+            got = {"printed when": gs, "text": _show(ws[0].args[1])[:70]}
+            ok_ = gs == ["IsNot(%s, None)" % fname] and fname in _show(ws[0].args[1])
+        rep.ob("R6", smh.qualname, "header-line:%s" % fname, ok_, expected="written exactly when %s is not None, showing its value (0 is a value)" % fname, derived=got,
+               msg="the %s line of `pydisasm -F header` is not printed exactly when the format stores the field: a stored value of 0 (empty source file, reproducible-build "
+                   "timestamp) disappears or an absent field is shown" % fname)
+    # the values handed to show_module_header are load_module's
+    lm_vals = [_Sym(n) for n in ("version_tuple", "timestamp", "magic_int", "co", "is_pypy", "source_size", "sip_hash")]
+    seen_ = []
+
+    def lm_hook(spec, name, fv, args, kw, node):
+        if name.endswith("load_module"):
+            return tuple(lm_vals)
+        if name.endswith("show_module_header"):
+            seen_.append(([_show(a) for a in args], {k: _show(v) for k, v in kw.items()}))
+            return None
+        if name.endswith("check_object_path") or name.endswith("is_graal") or "IS_GRAAL" in name:
+            return _Sym("path")
+        return NotImplemented
+    sp = _Spec(F, hooks=[lm_hook], opaque_funcs={"disco", "xdis.disasm.disco"})
+    try:
+        sp.run(dfile, [_Sym("filename", "str")], dict(outstream=_Sym("outstream", "obj!"), asm_format="header"))
+    except Exception as ex:
+        seen_.append((["not analysable: %s" % ex], {}))
+    want_pos = ["version_tuple", "co", "timestamp", "outstream", "is_pypy", "magic_int", "source_size", "sip_hash"]
+    okp = len(seen_) == 1 and seen_[0][0][:8] == want_pos
+    rep.ob("R6", dfile.qualname, "header-values-are-load_module's", okp, expected=want_pos, derived=seen_[:1],
+           msg="`pydisasm -F header` does not print the fields load_module returned (argument order / source)")
     rep.assumptions = ["reference/pyc_header.json (PEP 3147/552 layouts, validated against py_compile output of CPython 3.6-3.13 in all invalidation modes)",
                        "fp.read(n) returns n bytes (truncation is C11's subject)", "struct.unpack semantics"]
 
